@@ -6,22 +6,6 @@ import (
 	vp "github.com/Tnze/go-mc/internal/zzvp"
 )
 
-// vpRefLEB is the textbook unsigned LEB128 encoder.
-func vpRefLEB(v uint64) (out [10]byte, n int) {
-	for {
-		b := byte(v & 0x7F)
-		v >>= 7
-		if v != 0 {
-			out[n] = b | 0x80
-			n++
-			continue
-		}
-		out[n] = b
-		n++
-		return
-	}
-}
-
 // encode: bytes, count and Len() equal the reference for all 2^32 values.
 func VP_C05_enc32() {
 	v := VarInt(vp.Int32())
